@@ -111,4 +111,9 @@ def chain_strategies(strategies: list[NamingStrategy], remote_path: str, local_d
     for strategy in strategies:
         if strategy.should_be_applied(path, filename):
             path, filename = strategy.apply(remote_path, path, filename)
+
+    if not filename:
+        raise ValueError(
+            f"naming strategies did not produce a filename for remote path : {remote_path!r}")
+
     return path, filename
